@@ -42,7 +42,7 @@ func c08Targets(c *mon.Ctx, prof gen.Profile, a, b any, hs []ref.Hunk, o OptSet)
 			if !isArr {
 				return v
 			}
-			switch r.Intn(7) {
+			switch r.Intn(8) {
 			case 0:
 				kind = "non-array:scalar"
 				return gen.Scalar(r, prof)
@@ -85,6 +85,22 @@ func c08Targets(c *mon.Ctx, prof gen.Profile, a, b any, hs []ref.Hunk, o OptSet)
 					l = append(l, ref.Clone(l[r.Intn(len(l))]))
 					gen.Shuffle(r, l)
 					return l
+				}
+			case 7:
+				kind = "swapped-key-tuple-decoy"
+				if len(o.Keys) >= 2 {
+					for _, e := range l {
+						m, isObj := e.(map[string]any)
+						if !isObj {
+							continue
+						}
+						if _, has := m[o.Keys[0]]; !has {
+							continue
+						}
+						decoy := ref.Clone(m).(map[string]any)
+						decoy[o.Keys[0]], decoy[o.Keys[1]] = m[o.Keys[1]], m[o.Keys[0]]
+						return append([]any{decoy}, l...) // before the addressed member
+					}
 				}
 			default:
 				kind = "keyed-member-nonkey-field-changed"
